@@ -45,18 +45,15 @@ def gen_cases(rng, tier):
         model["tab"]["cutoff"] = float(rng.randint(1, 20))
     cases.append({"route": route, "model": model, "style": rng.randrange(1 << 30)})
   # energy exactly 0 at a grid row where the slope is not (root on the grid)
-  for i in range(6 if tier == "quick" else 60):
+  for i in range(16 if tier == "quick" else 96):
     nr = rng.choice([5, 9, 21, 41])
     cutoff = (nr - 1) * rng.choice([0.25, 0.125, 0.5])
     dr = cutoff / (nr - 1)
     k = rng.randint(1, nr - 2)
-    c = rng.choice([2.0, 4.0, 0.5, -8.0])
-    node = {"k": "form", "name": "polynomial", "p": [-c * k * dr, c]}
-    if i % 2:
-      node = {"k": "sum", "a": [node, {"k": "form", "name": "zero", "p": []}]}
-    route = ["api_class", "api_legacy", "potable", "cli"][i % 4]
+    node, rv = spec.root_node(rng, k * dr, spec.ROOT_VARIANTS[i % len(spec.ROOT_VARIANTS)])
+    route = ["api_class", "api_legacy", "potable", "cli"][(i + i // 8) % 4]
     model = {"type": "pair", "target": "LAMMPS", "tab": {"nr": nr, "cutoff": cutoff}, "forms": [], "tables": [], "pair": [["Ar", "Ar", node]]}
-    cases.append({"route": route, "model": model, "style": rng.randrange(1 << 30), "root_on_grid": k})
+    cases.append({"route": route, "model": model, "style": rng.randrange(1 << 30), "root_on_grid": k, "root_variant": rv})
   return cases
 
 
@@ -83,6 +80,7 @@ def run_case(case, ctx):
   if case.get("root_on_grid"):
     rows = sorted(set(rows + [case["root_on_grid"] - 1]))
     ctx.cls("root_on_grid")
+    ctx.cls("root_on_grid:" + case.get("root_variant", "?"))
   try:
     for o in refs:
       for i in rows:
@@ -177,7 +175,7 @@ def run_case(case, ctx):
       r = R.F(dr * (i + 1))
       row = sec["rows"][i]
       where = "block %d (%s-%s) row %d r=%s route=%s" % (idx, a, b, i + 1, row[1], route)
-      oracle.check_value(ctx, "energy", row[2], o, r, where=where)
+      oracle.check_value(ctx, "energy", row[2], o, r, where=where, fmt="lammps")
       if oracle.on_break(r, o.breaks) or ((not o.analytic) and oracle.near_break(r, o.breaks)):
         ctx.count("force_rows_skipped_at_breakpoint")
         continue
@@ -185,7 +183,7 @@ def run_case(case, ctx):
       if abs(f_ref) > 1e-6:
         any_force = True
       slack = 0 if o.analytic else o.num_deriv_slack(r)
-      oracle.check_token(ctx, "force", row[3], f_ref, o.dscale(r), rel=1e-8, abs_=slack, where=where, mag=o.dmag(r))
+      oracle.check_token(ctx, "force", row[3], f_ref, o.dscale(r), rel=1e-8, abs_=slack, where=where, mag=o.dmag(r), fmt="lammps")
       ctx.count("force_analytic" if o.analytic else "force_numeric_fallback")
   ctx.nontrivial(any_force)
 
